@@ -418,6 +418,24 @@ def _world(rng, tier, index, res, tr, ch):
             err = e
         if current and not ok:
             viol("consume-jwe:rejected-resolvable", "multi-recipient JWE whose recipient kids all name current keys was not decrypted", dict(repro, token=tok))
+        # the same through a callable that answers per recipient with the (small) set holding the key that recipient names
+        calls = []
+
+        def per_recipient(rcpt, _keys=list(owner.jset.keys)):
+            kid = rcpt.headers().get("kid")
+            calls.append(kid)
+            mine = [k for k in _keys if k.kid == kid]
+            return KeySet(mine) if mine else KeySet(_keys)
+        try:
+            obj = jwe.decrypt_json(tok, per_recipient, algorithms=ALLJWE)
+            ok2 = obj.plaintext == pt
+        except Exception as e:
+            ok2 = False
+        res.fired("multi-recipient-callable-per-recipient-set")
+        if current and ok and not ok2:
+            viol("consume-jwe:callable-set-per-recipient:rejected-resolvable",
+                 "multi-recipient JWE decrypts with the key set given directly but not through a callable returning, per recipient, "
+                 "the set that holds the named key (callable saw kids %r for recipients %r)" % (calls, kids), dict(repro, token=tok))
 
     def generated_set():
         """KeySet.generate_key_set / keys created from one parameters dict: every key its own kid; produce -> consume through the public set"""
